@@ -536,6 +536,11 @@ pub fn radius(f: Func, x0: f64) -> Option<f64> {
 
 /// majorant coefficients: hat g_k = max_{j<=k} |g_j| / rho^(k-j)
 pub fn majorant(f: Func, x0: f64, g: &Ser) -> Ser {
+    majorant_depth(f, x0, g, usize::MAX)
+}
+
+/// `depth`: nesting depth of the type the function is applied to (1 = derivative parts are plain floats)
+pub fn majorant_depth(f: Func, x0: f64, g: &Ser, depth: usize) -> Ser {
     let mut m: Ser = g.iter().map(|v| v.abs()).collect();
     if matches!(f, Func::SphJ0 | Func::SphJ1 | Func::SphJ2) {
         // closed forms combine sin/cos terms of size 1/|x|: accuracy is absolute at that level
@@ -560,6 +565,28 @@ pub fn majorant(f: Func, x0: f64, g: &Ser) -> Ser {
         for k in start..m.len() {
             m[k] = m[k].max(m[k - 1] / rho);
         }
+        // The chain is a worst-case envelope; where it is far above what a backward-stable evaluation
+        // of the k-th coefficient at a rounded argument gives -- |g_k| + (k+1)|x||g_{k+1}|, the value
+        // plus its sensitivity to a relative perturbation of x -- the tighter of the two is used
+        // (four times the latter; NDV_SENS=<factor> overrides, 0 = off).  Only for types whose derivative
+        // parts are plain floats: on nested types the inner arithmetic adds absolute errors of the size
+        // of the envelope (DESIGN 7.8).
+        let sens = sens_factor();
+        if sens > 0.0 && depth == 1 && !matches!(f, Func::SphJ0 | Func::SphJ1 | Func::SphJ2) {
+            for k in 1..m.len() {
+                let next = if k + 1 < g.len() { g[k + 1].abs() } else { 0.0 };
+                let s = g[k].abs() + (k as f64 + 1.0) * x0.abs() * next;
+                if next.is_finite() && s.is_finite() && k + 1 < g.len() {
+                    m[k] = m[k].min(sens * s).max(g[k].abs());
+                }
+            }
+        }
     }
     m
+}
+
+fn sens_factor() -> f64 {
+    use std::sync::OnceLock;
+    static S: OnceLock<f64> = OnceLock::new();
+    *S.get_or_init(|| std::env::var("NDV_SENS").ok().and_then(|v| v.parse().ok()).unwrap_or(4.0))
 }
